@@ -450,6 +450,7 @@ func (s *Subscriber) SyncAdChain(ctx context.Context, peerInfo peer.AddrInfo, op
 		// Query the peer for the latest CID
 		nextCid, err = syncer.GetHead(ctx)
 		if err != nil {
+			hnd.resetSyncer(syncer)
 			return cid.Undef, fmt.Errorf("cannot query head for sync: %w", err)
 		}
 
@@ -494,6 +495,7 @@ func (s *Subscriber) SyncAdChain(ctx context.Context, peerInfo peer.AddrInfo, op
 	}
 	syncCount, err := hnd.handle(ctx, nextCid, sel, syncer, opts.blockHook, segdl, stopAtCid)
 	if err != nil {
+		hnd.resetSyncer(syncer)
 		return cid.Undef, fmt.Errorf("sync handler failed: %w", err)
 	}
 
@@ -581,6 +583,7 @@ func (s *Subscriber) syncEntries(ctx context.Context, peerInfo peer.AddrInfo, en
 	}
 	_, err = hnd.handle(ctx, entCid, sel, syncer, bh, segdl, cid.Undef)
 	if err != nil {
+		hnd.resetSyncer(syncer)
 		return fmt.Errorf("sync handler failed: %w", err)
 	}
 
@@ -843,6 +846,16 @@ func (h *handler) makeSyncer(peerInfo peer.AddrInfo, doUpdate bool) (Syncer, fun
 	return h.syncer, update, nil
 }
 
+// resetSyncer discards the cached sync client after a failed sync. A sync
+// client that has failed may have dropped addresses it could not reach, or
+// switched to the legacy no-IPNI-path URL, and would keep using that state.
+// The next sync creates a new client from the publisher's full address list.
+func (h *handler) resetSyncer(failed Syncer) {
+	if h.syncer == failed {
+		h.syncer = nil
+	}
+}
+
 // asyncSyncAdChain processes the latest announce message received over pubsub
 // or HTTP. This functions runs in an independent goroutine, with no more than
 // one goroutine per advertisement publisher.
@@ -887,6 +900,7 @@ func (h *handler) asyncSyncAdChain(ctx context.Context) {
 	sel := ExploreRecursiveWithStopNode(adsDepthLimit, h.subscriber.adsSelectorSeq, latestSyncLink)
 	syncCount, err := h.handle(ctx, nextCid, sel, syncer, h.subscriber.generalBlockHook, h.subscriber.segDepthLimit, stopAtCid)
 	if err != nil {
+		h.resetSyncer(syncer)
 		// Failed to handle the sync, so allow another announce for the same CID.
 		if h.subscriber.receiver != nil {
 			h.subscriber.receiver.UncacheCid(nextCid)
